@@ -237,6 +237,14 @@ def module_source(program, mi):
             pd = '{' + ', '.join(f'{n!r}: {n}' for n in pnames) + '}'
             lines.append(f'        return _rt.compute(self, {pd}, _rt.gather_args(self, [{", ".join(shorts)}]))')
         else:
+            unread = tuple(t.get('unread') or ()) if t['style'] == 'index' else ()
+            if unread:
+                # parameters as run arguments, inputs through the registry - and not all of them are read
+                lines.append(f'    def run({", ".join(["self"] + pnames)}) -> {ann}:')
+                pd = '{' + ', '.join(f'{n!r}: {n}' for n in pnames) + '}'
+                lines.append(f'        return _rt.compute(self, {pd}, _rt.gather_index(self, {len(dins)}, skip={unread!r}))')
+                lines.append('')
+                continue
             lines.append(f'    def run(self) -> {ann}:')
             pd = '{' + ', '.join(f'{n!r}: self.params[{n!r}]' for n in pnames) + '}'
             if t['style'] == 'index':
